@@ -331,7 +331,7 @@ impl Scn {
 				if held.iter().any(|h| h.total != p.total) { rec.oracle_fail(format!("PaymentClaimable over parts with different total_msat: {}", desc)); }
 				if sum_int < p.total { rec.oracle_fail(format!("PaymentClaimable for an incomplete set (sum intended {} < total_msat {}): {}", sum_int, p.total, desc)); }
 				if amt != sum_val { rec.oracle_fail(format!("PaymentClaimable amount {} != sum of held HTLC values {}: {}", amt, sum_val, desc)); }
-				if dl != min_cltv.saturating_sub(HTLC_FAIL_BACK_BUFFER + 1) { rec.oracle_fail(format!("PaymentClaimable claim_deadline {} != min cltv {} - {}: {}", dl, min_cltv, HTLC_FAIL_BACK_BUFFER, desc)); }
+				if dl != min_cltv.saturating_sub(HTLC_FAIL_BACK_BUFFER) { rec.oracle_fail(format!("PaymentClaimable claim_deadline {} != min cltv {} - {}: {}", dl, min_cltv, HTLC_FAIL_BACK_BUFFER, desc)); }
 				if p.total < self.min { rec.oracle_fail(format!("PaymentClaimable below the invoice minimum {}: {}", self.min, desc)); }
 				if seen.claimable.len() > 1 { rec.oracle_fail(format!("two PaymentClaimable events for one part: {}", desc)); }
 				rec.case(&op, &seen.answer(), "part:claimable", true);
@@ -417,7 +417,7 @@ impl Scn {
 			if seen.claimed.len() != 1 || seen.claimed[0] != sum { rec.oracle_fail(format!("PaymentClaimed {:?} != sum of the fulfilled HTLC values {}: {}", seen.claimed, sum, desc)); }
 			self.claimed_total += sum;
 			let bal = w.recv_balance();
-			if bal != self.bal0 + self.claimed_total + 1 { rec.oracle_fail(format!("receiver balance moved by {} msat, claimed {} msat: {}", bal as i128 - self.bal0 as i128, self.claimed_total, desc)); }
+			if bal != self.bal0 + self.claimed_total { rec.oracle_fail(format!("receiver balance moved by {} msat, claimed {} msat: {}", bal as i128 - self.bal0 as i128, self.claimed_total, desc)); }
 		} else if !seen.claimed.is_empty() {
 			rec.oracle_fail(format!("PaymentClaimed without any update_fulfill_htlc: {}", desc));
 		}
